@@ -214,7 +214,10 @@ class C01(Prop):
                         'cut': [rng.choice(['peer-request', 'response-after-cancel', 'response', 'none']) for _ in range(3)],
                         'cause': rng.choice(['eof', 'error', 'healthy']), 'via': rng.choice([None, 'plain', 'suspend']),
                         'sizes': [rng.choice([1, 30, 100, 200]) for _ in range(6)], 'whole': rng.random() < 0.4,
-                        'before': [rng.random() < 0.4 for _ in range(3)]})
+                        'before': [rng.random() < 0.4 for _ in range(3)],
+                        # a channel whose application publisher is still producing when the connection goes away, and a channel opened on the
+                        # next connection (same stream id): the responder of the new one receives the elements of its own publisher only
+                        'chan': rng.random() < 0.5})
         return out
 
     def run_impl(self, case):
@@ -313,9 +316,63 @@ class C01(Prop):
         want_req, want_resp, got_resp = [], [], []
         leftovers = []
         sz = case['sizes']
+        from reactivestreams.publisher import Publisher
+        from reactivestreams.subscription import Subscription
+        from reactivestreams.subscriber import DefaultSubscriber
+
+        class Paced(Publisher, Subscription):
+            # an application publisher: emits when told to, within its demand and until it is cancelled
+            def __init__(self):
+                self.sub, self.demand, self.cancelled = None, 0, False
+
+            def subscribe(self, subscriber):
+                self.sub = subscriber
+                subscriber.on_subscribe(self)
+
+            def request(self, n):
+                self.demand += n
+
+            def cancel(self):
+                self.cancelled = True
+
+            def emit(self, data, complete=False):
+                if self.cancelled or self.demand <= 0 or self.sub is None:
+                    return False
+                self.demand -= 1
+                try:
+                    self.sub.on_next(Payload(data), complete)
+                except Exception:
+                    pass
+                return True
+
+        async def open_channel(t, first):
+            n0 = len(t.sent)
+            pub = Paced()
+            c.request_channel(Payload(first), pub).initial_request_n(5).subscribe(DefaultSubscriber())
+            await loop.settle()
+            req = [e for e in t.sent[n0:] if isinstance(e[2], F.RequestChannelFrame)]
+            sid = req[-1][2].stream_id if req else None
+            if sid is not None:
+                g = F.RequestNFrame()
+                g.stream_id, g.request_n = sid, 10
+                t.deliver(g.serialize())
+                await loop.settle()
+            return pub, sid, n0
+        old_pubs, chan_want, chan_got = [], [], []
         for rnd in range(case['rounds'] + 1):
             t = R.transports[rnd]
             tag = 10 + 20 * rnd
+            if case.get('chan'):
+                pub, csid, n0 = await open_channel(t, b'open%d' % rnd)
+                for p_old in old_pubs:      # the producers behind the publishers of the connections that are gone are still running
+                    p_old.emit(b'stale'), p_old.emit(b'stale')
+                await loop.settle()
+                for i in range(2):
+                    pub.emit(b'el%d-%d' % (rnd, i))
+                await loop.settle()
+                chan_want.append([b'open%d' % rnd, b'el%d-0' % rnd, b'el%d-1' % rnd] if csid is not None else ['no-request-frame'])
+                chan_got.append([bytes(e[2].data or b'') for e in t.sent[n0:] if isinstance(e[2], (F.RequestChannelFrame, F.PayloadFrame)) and e[2].stream_id == csid])
+                old_pubs.append(pub)
             # 1. the interactions of this connection, complete: the peer asks, the client asks (a connection that is going to be lost may
             # go straight to step 2, so that the half-received frame sits on the first stream id of either parity)
             last = rnd == case['rounds']
@@ -391,7 +448,8 @@ class C01(Prop):
             await c.close()
         except Exception:
             pass
-        return {'want_req': want_req, 'got_req': served, 'want_resp': want_resp, 'got_resp': got_resp, 'leftovers': leftovers}
+        return {'want_req': want_req, 'got_req': served, 'want_resp': want_resp, 'got_resp': got_resp, 'leftovers': leftovers,
+                'chan_want': [[x.hex() if isinstance(x, bytes) else x for x in w] for w in chan_want], 'chan_got': [[x.hex() for x in g] for g in chan_got]}
 
     async def _scenario(self, loop, case):
         from rsocket.rsocket_client import RSocketClient
@@ -517,6 +575,9 @@ class C01(Prop):
         if case.get('kind') == 'reconnect':
             if obs['got_req'] != obs['want_req']:
                 fails.append({'signature': 'request-payload-altered:after-reconnect', 'what': 'the peer sent the requests %s over the successive connections, the handler received %s' % (_short(obs['want_req']), _short(obs['got_req']))})
+            if obs.get('chan_got') != obs.get('chan_want'):
+                fails.append({'signature': 'channel-elements-not-its-own:after-reconnect', 'what': 'the channels opened on the successive connections were handed %s by their publishers, the client put %s on their streams' % (
+                    [[bytes.fromhex(x).decode() for x in w] for w in obs['chan_want']], [[bytes.fromhex(x).decode('latin1') for x in g] for g in obs['chan_got']])})
             if obs['got_resp'] != obs['want_resp']:
                 fails.append({'signature': 'response-payloads-altered:after-reconnect', 'what': 'the peer answered %s over the successive connections, the callers received %s' % (_short(obs['want_resp']), _short(obs['got_resp']))})
             return fails
